@@ -59,7 +59,7 @@ UNITS = [
       functions=["secp256k1_surjectionproof_generate", "secp256k1_scalar_set_b32", "secp256k1_scalar_negate", "secp256k1_scalar_add", "secp256k1_scalar_get_b32", "secp256k1_memcmp_var"],
       timeout=1800, min_obl=30, unwind=66, tier="thorough",
       note="gates and wiring of proof generation with the tag scan and the scalar write-back loop unwound"),
-    U("C11.initialize_b", ["C11"], "harness/C11/initialize.c", "h_sjp_initialize", bounded="n_to_use<=2, iterations<=2, <=4 random draws",
+    U("C11.initialize_b", ["C11"], "harness/C11/initialize.c", "h_sjp_initialize", bounded="n_tags<=8, n_to_use<=2, iterations<=2, <=3 random draws",
       replace=["secp256k1_surjectionproof_csprng_next"], assumed=["secp256k1_surjectionproof_csprng_next"],
       functions=["secp256k1_surjectionproof_initialize", "secp256k1_surjectionproof_csprng_init", "secp256k1_memcmp_var"], timeout=3600, min_obl=30, unwind=258, tier="thorough",
       unwindset=["secp256k1_surjectionproof_initialize.0:6", "secp256k1_surjectionproof_initialize.1:6", "secp256k1_surjectionproof_initialize.2:6", "secp256k1_memcmp_var.0:34"],
